@@ -126,12 +126,8 @@ func VH_C12(p []int) {
 
 // ConvertStack / ConvertCondition on aliases, nil, zero-valued aliases and
 // unrelated types.  p: which
-func VH_C12_Convert(p []int) {
-	base := And().Push("x")
-	cb := Cond("k", Eq, "v")
-	var in any
-	wantS, wantC := false, false
-	switch p[0] {
+func vhConvForm(k int, base Stack, cb Condition) (in any, wantS, wantC bool) {
+	switch k {
 	case 0:
 		in, wantS = base, true
 	case 1:
@@ -177,7 +173,41 @@ func VH_C12_Convert(p []int) {
 	case 18:
 		var z vhAliasStackS
 		in = z
+	case 19:
+		var pa *vhAliasCond
+		in = pa
+	case 20:
+		var pa *vhAliasCondS
+		in = pa
+	case 21:
+		var pc *Condition
+		in = pc
+	case 22:
+		var ps *Stack
+		in = ps
 	}
+	return
+}
+
+// vhConvForms is the number of forms vhConvForm knows.
+const vhConvForms = 23
+
+// p: form [, an earlier form converted first: a conversion's verdict depends
+// on its argument alone, never on what was converted before]
+func VH_C12_Convert(p []int) {
+	base := And().Push("x")
+	cb := Cond("k", Eq, "v")
+	if len(p) > 1 {
+		other := And().Push("y")
+		oc := Cond("k2", Ne, "w")
+		first, _, _ := vhConvForm(p[1], other, oc)
+		ConvertStack(first)
+		ConvertCondition(first)
+		fh := Or().Push("lead", first)
+		_ = fh.String()
+		_ = fh.IsEqual(Or().Push("lead", first))
+	}
+	in, wantS, wantC := vhConvForm(p[0], base, cb)
 	s, okS := ConvertStack(in)
 	c, okC := ConvertCondition(in)
 	verifAssert(okS == wantS, "ConvertStack-ok")
